@@ -1197,9 +1197,12 @@ def _generalise(rng, row, reverse):
 
 def _acl_lines(rng, tree, reverse, opts, depth=0):
     rules = odict()
+    rows_here = {r for r, _ in tree}
     for row, ch in tree:
         if rng.random() < opts["drop"]:
             continue
+        if row.startswith(reverse + " ") and row[len(reverse) + 1:] in rows_here and not ch and rng.random() < 0.5:
+            continue        # the negated line is owned through the reverse form of its positive sibling's rule
         rr = _generalise(rng, row, reverse)
         rules.setdefault(rr, []).extend(ch)
     out = []
@@ -1369,6 +1372,13 @@ def gen_case(rng):
     if 0.6 <= profile < 0.68:
         pools[1].append(reverse + " " + rng.choice(pools[1]))
         pools[0].append(reverse + " " + rng.choice(pools[0]))
+    if 0.68 <= profile < 0.76:
+        # commands whose first word merely BEGINS with the negation word (`notify`, `node`, `undoable`), and their
+        # negated forms: `no notify …` is covered by the rule `notify …` through its reverse form
+        near = reverse + rng.choice(["tify", "de", "able", "x"]) + " " + rng.choice(VALS)
+        lvl = rng.choice([0, 1])
+        pools[lvl].append(near)
+        pools[lvl].append(reverse + " " + near)
     gens = []
     for gi in range(ngen):
         tree = _gen_tree(rng, pools)
